@@ -1149,19 +1149,24 @@ fn wire_run_addr_history(case: &Value) -> crate::netrun::CaseResult {
             res.violations.push(mk("service-panic", format!("the service task panicked: {} at {}", p.msg, panics::short_loc(&p.loc))));
             break;
         }
-        // the interface's addresses as the harness knows them (its own book-keeping of the history)
-        let mut current: Vec<[u8; 16]> = vec![ll_of(&SRV_MAC).octets()];
+        // the interface's addresses: the kernel's own list (ground truth, independent of the service's
+        // view and of the harness's book-keeping of its events)
+        let kernel = match kernel_ipv6_addrs() {
+            Ok(v) => v,
+            Err(e) => return CaseResult::machinery(e),
+        };
+        let current: Vec<[u8; 16]> = kernel.iter().map(|(a, _)| a.octets()).collect();
         let mut want_pios: Vec<(u8, [u8; 16])> = vec![];
-        for (i, (_, a, l)) in HIST_ADDRS.iter().enumerate() {
-            if present[i] {
-                let ip: std::net::Ipv6Addr = a.parse().unwrap();
-                current.push(ip.octets());
-                let mut net = ip.octets();
-                for b in net.iter_mut().skip(*l as usize / 8) {
-                    *b = 0;
-                }
-                want_pios.push((*l, net));
+        for (ip, l) in &kernel {
+            // the prefixes listed under the top-level addresses of the implied-mode configuration
+            if !HIST_ADDRS.iter().any(|(_, a, _)| a.parse::<std::net::Ipv6Addr>().map(|x| x == *ip).unwrap_or(false)) {
+                continue;
             }
+            let mut net = ip.octets();
+            for b in net.iter_mut().skip(*l as usize / 8) {
+                *b = 0;
+            }
+            want_pios.push((*l, net));
         }
         want_pios.sort();
         let Some(icmp) = got else {
